@@ -85,6 +85,103 @@ def reinit (H : String → UInt64) (t : T) : Res (List String × List EdgeIdx) :
   else if sorted.length == 0 then .err "No tips in the index, tip name index is not initialized"
   else .ok (sorted, idxL H (fun x => sorted.idxOf x) sorted.length (rootUp H t) (0, 0) t.kids)
 
+/-! ### `UpdateBitSet` / `fillRightBitSet`, statement by statement
+
+The state is the stack `rightEdges` itself: the bitsets of the branches on the path from the
+root branch down to the current one (top first; Go appends at the end — every member gets the same
+`Set`, so the order is immaterial).  `bitset.Set(i)` is `List.set i true` (Go would *extend* a
+bitset for `i ≥ length`; tip ids are ranks `< n`, so that never happens — theorem `reinitLit_eq`
+needs no such hypothesis because `mkBits` ignores such ids too). -/
+
+/-- `bitset.New(n)` (what `ClearBitSets` leaves on every branch) -/
+def zeroBits (n : Nat) : List Bool := List.replicate n false
+
+/-- `BitSet.ClearAll` -/
+def clearAll (b : List Bool) : List Bool := b.map fun _ => false
+
+mutual
+/-- `fillRightBitSet(currentEdge, rightEdges)`: `st` = `rightEdges` with the bitset of `currentEdge`
+    on top; returns the stack after the call and the finished bitsets of the branches strictly
+    below `currentEdge`, in `Edges()` order. -/
+def fillT (rank : String → Nat) (n : Nat) : T → List (List Bool) → List (List Bool) × List (List Bool)
+  | _, [] => ([], [])                                               -- (rightEdges always holds currentEdge)
+  | .node d _ [], cb :: rest =>                                      -- currentEdge.bitset.ClearAll(); a tip:
+    ((clearAll cb :: rest).map fun b => b.set (rank d.name) true, []) --   for _, e := range *rightEdges { e.bitset.Set(i) }
+  | .node _ _ (k :: ks), cb :: rest => fillL rank n (k :: ks) (clearAll cb :: rest)
+/-- the loop `for _, e2 := range currentEdge.right.br` over the child branches -/
+def fillL (rank : String → Nat) (n : Nat) : Kids → List (List Bool) → List (List Bool) × List (List Bool)
+  | [], st => (st, [])
+  | (_, t) :: r, st =>
+    match fillT rank n t (zeroBits n :: st) with                     -- *rightEdges = append(*rightEdges, e2); recurse
+    | (cb :: st', recs) =>                                          -- *rightEdges = (*rightEdges)[:len-1]
+      ((fillL rank n r st').1, cb :: (recs ++ (fillL rank n r st').2))
+    | ([], recs) => ([], recs)
+end
+
+/-- `UpdateBitSet`: every branch of the root starts a fresh stack holding only itself. -/
+def updateBitSet (rank : String → Nat) (n : Nat) : Kids → List (List Bool)
+  | [] => []
+  | (_, t) :: r =>
+    match fillT rank n t [zeroBits n] with
+    | (cb :: _, recs) => cb :: (recs ++ updateBitSet rank n r)
+    | ([], recs) => recs ++ updateBitSet rank n r
+
+/-- `ReinitIndexes` with the bitsets computed by the statement-by-statement `updateBitSet`
+    (this is what the driver runs; `reinitLit_eq` shows it is `reinit`). -/
+def reinitLit (H : String → UInt64) (t : T) : Res (List String × List EdgeIdx) :=
+  match reinit H t with
+  | .err m => .err m
+  | .ok (sorted, idx) =>
+    .ok (sorted, List.zipWith (fun (e : EdgeIdx) (b : List Bool) => { e with bits := b }) idx
+      (updateBitSet (fun x => sorted.idxOf x) sorted.length t.kids))
+
+/-! ### `ComputeEdgeHashes`, statement by statement
+
+`rightTL`/`rightLL`: the first pass with its running additions `e.hashcoderight += …`, `e.ntaxright += …`
+in child order from 0.  `leftLit`: the loop of the second pass over `prev.Neigh()` in slice order —
+children contribute their stored `(hashcoderight, ntaxright)`, the parent (at position `ppos`) the
+`(hashcodeleft, ntaxleft)` of the branch above — skipping `cur`, then the `prev.Tip()` addition. -/
+
+mutual
+def rightTL (H : String → UInt64) : T → UInt64 × Nat
+  | .node d _ [] => (H d.name, 1)
+  | .node _ _ (k :: ks) => rightLL H (k :: ks) (0, 0)
+def rightLL (H : String → UInt64) : Kids → UInt64 × Nat → UInt64 × Nat
+  | [], acc => acc
+  | (_, t) :: r, acc => rightLL H r (acc.1 + (rightTL H t).1, acc.2 + (rightTL H t).2)
+end
+
+/-- `(hashcodeleft, ntaxleft)` of the branch from the node (`name`, parent at `ppos`, `up` = fields of the
+    branch above it) to its child number `i` -/
+def leftLit (H : String → UInt64) (isRoot : Bool) (name : String) (ppos : Nat) (up : UInt64 × Nat)
+    (kids : Kids) (i : Nat) : UInt64 × Nat :=
+  let g : List (Option Nat × (UInt64 × Nat)) := kids.zipIdx.map fun (et, j) => (some j, rightTL H et.2)
+  let neigh := if isRoot then g else g.take ppos ++ (none, up) :: g.drop ppos
+  let s := neigh.foldl (fun acc x => if x.1 == some i then acc else (acc.1 + x.2.1, acc.2 + x.2.2)) (0, 0)
+  if kids.length + (if isRoot then 0 else 1) == 1 then (s.1 + H name, s.2 + 1) else s
+
+/- the four hash fields `(hashcodeleft, ntaxleft, hashcoderight, ntaxright)` of every branch, `Edges()` order -/
+mutual
+def hashTLit (H : String → UInt64) (isRoot : Bool) (up : UInt64 × Nat) : T → List (UInt64 × Nat × UInt64 × Nat)
+  | .node d p kids => hashLLit H isRoot d.name p up kids 0 kids
+def hashLLit (H : String → UInt64) (isRoot : Bool) (name : String) (p : Nat) (up : UInt64 × Nat) (all : Kids) (i : Nat) :
+    Kids → List (UInt64 × Nat × UInt64 × Nat)
+  | [] => []
+  | (_, t) :: r =>
+    ((leftLit H isRoot name p up all i).1, (leftLit H isRoot name p up all i).2, (rightTL H t).1, (rightTL H t).2) ::
+      (hashTLit H false (leftLit H isRoot name p up all i) t ++ hashLLit H isRoot name p up all (i + 1) r)
+end
+
+/-- `ReinitIndexes`, every part statement by statement: bitsets by `updateBitSet`, hashes and counts by
+    `hashTLit` (this is what the driver runs; `reinitLit2_eq` shows it is `reinit`). -/
+def reinitLit2 (H : String → UInt64) (t : T) : Res (List String × List EdgeIdx) :=
+  match reinit H t with
+  | .err m => .err m
+  | .ok (sorted, _) =>
+    .ok (sorted, List.zipWith (fun (b : List Bool) (h : UInt64 × Nat × UInt64 × Nat) =>
+        ({ bits := b, nleft := h.2.1, nright := h.2.2.2, hleft := h.1, hright := h.2.2.1 } : EdgeIdx))
+      (updateBitSet (fun x => sorted.idxOf x) sorted.length t.kids) (hashTLit H true (0, 0) t))
+
 /-- the index record of branch number `i` (position in `Edges()` / `T.splits`) after `ReinitIndexes` -/
 def indexOf (H : String → UInt64) (t : T) (i : Nat) : Option EdgeIdx :=
   match reinit H t with
@@ -126,6 +223,27 @@ def findEdge (e : EdgeIdx) (tip : Bool) (es : List (EdgeIdx × Bool)) : Option B
       else if bitsEqualOrComplement e.bits e2.bits then (if e2.bits.all (!·) then none else some true)
       else go r
   go es
+
+/-- `Tree.CompareTipIndexes` on the two tip indexes (sizes of the name maps = numbers of tips when
+    the names are unique): same size, not empty, every name of the first known to the second. -/
+def compareTipIndexes (tips₁ tips₂ : List String) : Bool :=
+  !(tips₁.length == 0 || tips₂.length == 0 || tips₁.length != tips₂.length) && tips₁.all fun x => tips₂.contains x
+
+/-- the loop of `CommonEdges(edges1, edges2, tipEdges)` (tree.go:734): `(tree1, common)`,
+    `none` when `FindEdge` reports an error (Go: `-1, -1, err`) -/
+def commonEdgesLoop (tipEdges : Bool) (es2 : List (EdgeIdx × Bool)) :
+    List (EdgeIdx × Bool) → Int → Int → Option (Int × Int)
+  | [], tree1, common => some (tree1 - common, common)
+  | (e, tip) :: r, tree1, common =>
+    if tipEdges || !tip then
+      match findEdge e tip es2 with
+      | none => none
+      | some found => commonEdgesLoop tipEdges es2 r (tree1 + 1) (if found then common + 1 else common)
+    else commonEdgesLoop tipEdges es2 r tree1 common
+
+/-- `Tree.CommonEdges(t2, tipEdges)` on two indexed trees: `none` is an error -/
+def commonEdges (tips₁ tips₂ : List String) (es1 es2 : List (EdgeIdx × Bool)) (tipEdges : Bool) : Option (Int × Int) :=
+  if !(compareTipIndexes tips₁ tips₂) then none else commonEdgesLoop tipEdges es2 es1 0 0
 
 /-- `Edge.TopoDepth` : `none` is the error "subtree sizes not computed" -/
 def EdgeIdx.topoDepth (e : EdgeIdx) : Option Nat :=
